@@ -280,6 +280,126 @@ func init() {
 		}
 		return it
 	})
+	// third wave (round 4: aliasing, nil versus empty, the other direction, documented limits)
+	aliasItems := func(tier string) []Item {
+		var it []Item
+		for _, l := range pick(tier, []int{12, 13, 14, 16}, rng(12, 22)) {
+			it = append(it, Item{PkgKey: "root", Func: "VerifC10_AliasDecode", Shape: []int{l}})
+		}
+		return it
+	}
+	keepsCaller := func(tier string) []Item {
+		var it []Item
+		for mt := 0; mt < 4; mt++ {
+			for _, nfr := range []int{1, 16, 17, 32} {
+				it = append(it, Item{PkgKey: "root", Func: "VerifC10_EncryptKeepsCaller", Shape: []int{mt, 3, nfr}})
+			}
+		}
+		return it
+	}
+	addItems("C01", func(tier string) []Item {
+		it := aliasItems(tier)
+		for mt := 0; mt < 4; mt++ {
+			for kind := 0; kind <= 2; kind++ {
+				it = append(it, Item{PkgKey: "root", Func: "VerifC01_EmptyLists", Shape: []int{mt, kind}})
+			}
+		}
+		return it
+	})
+	addItems("C02", func(tier string) []Item {
+		var it []Item
+		for ver := 0; ver <= 1; ver++ {
+			for mt := 0; mt < 4; mt++ {
+				it = append(it, Item{PkgKey: "root", Func: "VerifC02_DownlinkAnyMType", Shape: []int{ver, mt}})
+			}
+		}
+		return it
+	})
+	addItems("C03", func(tier string) []Item {
+		var it []Item
+		for mt := 0; mt < 4; mt++ {
+			for _, n := range []int{1, 5, 15} {
+				it = append(it, Item{PkgKey: "root", Func: "VerifC03_PHYFOpts", Shape: []int{mt, 3, n}}) // FPort > 0, empty FRMPayload
+			}
+		}
+		return it
+	})
+	addItems("C04", func(tier string) []Item {
+		return []Item{{PkgKey: "root", Func: "VerifC04_DecryptCopy", Shape: []int{0}}, {PkgKey: "root", Func: "VerifC04_DecryptCopy", Shape: []int{1}}}
+	})
+	addItems("C05", func(tier string) []Item {
+		it := append(aliasItems(tier), keepsCaller(tier)...)
+		for ver := 0; ver <= 1; ver++ {
+			for mt := 0; mt < 4; mt++ {
+				it = append(it, Item{PkgKey: "root", Func: "VerifC02_DownlinkAnyMType", Shape: []int{ver, mt}})
+			}
+		}
+		return it
+	})
+	addItems("C07", func(tier string) []Item {
+		var it []Item
+		for _, s := range [][]int{{2, 0}, {1, 3}, {3, 1}} {
+			it = append(it, Item{PkgKey: "root", Func: "VerifC07_ProprietaryOtherDirection", Shape: s})
+		}
+		for _, n := range []int{2, 3, 5} {
+			it = append(it, Item{PkgKey: "root", Func: "VerifC07_ProprietaryEncodeSpare", Shape: []int{n}})
+		}
+		return it
+	})
+	addItems("C09", func(tier string) []Item {
+		it := aliasItems(tier)
+		for _, l := range pick(tier, []int{13, 29, 45}, []int{13, 14, 28, 29, 30, 45, 61}) {
+			it = append(it, Item{PkgKey: "root", Func: "VerifC09_DecodeThenDecrypt", Shape: []int{l}})
+		}
+		for _, pk := range []string{"clocksync", "multicastsetup", "fragmentation", "firmwaremanagement"} {
+			for up := 0; up <= 1; up++ {
+				if tier != "thorough" { // thorough already has every length 0..8
+					it = append(it, Item{PkgKey: pk, Func: "VerifC09_Commands", Shape: []int{up, 7}})
+				}
+			}
+		}
+		return it
+	})
+	addItems("C10", func(tier string) []Item {
+		return []Item{{PkgKey: "root", Func: "VerifC04_DecryptCopy", Shape: []int{0}}, {PkgKey: "root", Func: "VerifC04_DecryptCopy", Shape: []int{1}},
+			{PkgKey: "root", Func: "VerifC07_ProprietaryEncodeSpare", Shape: []int{3}}}
+	})
+	addItems("C12", func(tier string) []Item {
+		var it []Item
+		for n := 0; n < 14; n++ {
+			for _, k := range pick(tier, []int{1, 2}, []int{1, 2, 3}) {
+				it = append(it, Item{PkgKey: "band", Func: "VerifC12_RX1AfterAdd", Shape: []int{n, k}})
+			}
+		}
+		return it
+	})
+	addItems("C16", func(tier string) []Item {
+		var it []Item
+		for kind := 0; kind <= 2; kind++ {
+			for _, l := range []int{16, 32} {
+				it = append(it, Item{PkgKey: "joinserver", Func: "VerifC16_HandlerStore", Shape: []int{kind, l}})
+			}
+		}
+		return it
+	})
+	addItems("C18", func(tier string) []Item {
+		var it []Item
+		for _, pk := range []string{"clocksync", "multicastsetup", "fragmentation", "firmwaremanagement"} {
+			for up := 0; up <= 1; up++ {
+				for idx := 0; idx <= 5; idx++ {
+					for _, l := range []int{1, 2, 5, 10} {
+						it = append(it, Item{PkgKey: pk, Func: "VerifC10_AliasPayload", Shape: []int{up, idx, l}})
+					}
+				}
+			}
+		}
+		return it
+	})
+	addItems("C19", func(tier string) []Item {
+		// redundancy up to 100 (the matrix line number enters the generator seed)
+		return []Item{{PkgKey: "fragmentation", Func: "VerifC19_Encode", Shape: []int{4, 1, 100}}, {PkgKey: "fragmentation", Func: "VerifC19_Encode", Shape: []int{12, 1, 100}},
+			{PkgKey: "fragmentation", Func: "VerifC19_Encode", Shape: []int{7, 2, 70}}}
+	})
 	addItems("C20", func(tier string) []Item {
 		var it []Item
 		fs := []string{"VerifC20_GPSRoundTrip", "VerifC20_GPSOffset", "VerifC20_GPSMonotone", "VerifC20_GPSDuration"}
